@@ -1,6 +1,6 @@
 (* C08 — property theorems (statements only; proofs live in Proofs*.v).  See notes/C08.md for the status of each. *)
 From Coq Require Import List ZArith QArith Qabs Bool.
-Require Import QV.C08.Model QV.C08.Spec QV.C08.Wf QV.C08.Proofs QV.C08.ProofsVec QV.C08.ProofsRev QV.C08.ProofsConst QV.C08.ProofsTotal QV.C08.ProofsProper QV.C08.ProofsCtor QV.C08.Hist QV.C08.ProofsHist QV.C08.ProofsTrafo QV.C08.ProofsConstT QV.C08.ProofsTotalT QV.C08.ProofsTable QV.C08.ProofsPar QV.C08.ProofsOp QV.C08.ProofsFlat QV.C08.ProofsDen QV.C08.ProofsSimple QV.C08.ProofsHistT QV.C08.Lin QV.C08.ProofsLin QV.C08.ProofsLinDen QV.C08.ProofsDedup QV.C08.ProofsLinHist QV.C08.ProofsR2 QV.C08.ProofsMirror QV.C08.ProofsOkb QV.C08.ProofsSubset QV.C08.ProofsRecipe QV.C08.ProofsRecipeT QV.C08.ProofsRecipeR QV.C08.ProofsMirrorT QV.C08.ProofsTg QV.C08.ProofsSubsetK QV.C08.ProofsRecipeG.
+Require Import QV.C08.Model QV.C08.Spec QV.C08.Wf QV.C08.Proofs QV.C08.ProofsVec QV.C08.ProofsRev QV.C08.ProofsConst QV.C08.ProofsTotal QV.C08.ProofsProper QV.C08.ProofsCtor QV.C08.Hist QV.C08.ProofsHist QV.C08.ProofsTrafo QV.C08.ProofsConstT QV.C08.ProofsTotalT QV.C08.ProofsTable QV.C08.ProofsPar QV.C08.ProofsOp QV.C08.ProofsFlat QV.C08.ProofsDen QV.C08.ProofsSimple QV.C08.ProofsHistT QV.C08.Lin QV.C08.ProofsLin QV.C08.ProofsLinDen QV.C08.ProofsDedup QV.C08.ProofsLinHist QV.C08.ProofsR2 QV.C08.ProofsMirror QV.C08.ProofsOkb QV.C08.ProofsSubset QV.C08.ProofsRecipe QV.C08.ProofsRecipeT QV.C08.ProofsRecipeR QV.C08.ProofsMirrorT QV.C08.ProofsTg QV.C08.ProofsSubsetK QV.C08.ProofsRecipeG QV.C08.ProofsExcl.
 Import ListNotations.
 Open Scope Q_scope.
 
@@ -571,3 +571,53 @@ Print Assumptions C08_subset_invariants.
 Theorem C08_time_guard_proper : forall w c t t', t == t' -> tg w c t = tg w c t'.
 Proof. exact tg_proper. Qed.
 Print Assumptions C08_time_guard_proper.
+
+(* ==== round 4: channels only ONE operand defines ("exclusive" channels; class of seeded change C08-6) ==== *)
+(* the plain ArithmeticWaveform on an exclusive channel: the lhs as it is, the rhs under the operator's unary form
+   (identity for '+', negation for '-'), samples and reported constants *)
+Theorem C08_arith_lhs_exclusive : forall l o r c t, inb c (channels l) = true -> inb c (channels r) = false ->
+  sample (WArith l o r) c t = sample l c t /\ cv (WArith l o r) c = cv l c.
+Proof. exact arith_lhs_exclusive. Qed.
+Print Assumptions C08_arith_lhs_exclusive.
+Theorem C08_arith_rhs_exclusive : forall l o r c t, inb c (channels l) = false -> inb c (channels r) = true ->
+  sample (WArith l o r) c t = omap (aop_rhs_only o) (sample r c t) /\ cv (WArith l o r) c = omap (aop_rhs_only o) (cv r c).
+Proof. exact arith_rhs_exclusive. Qed.
+Print Assumptions C08_arith_rhs_exclusive.
+(* when may `get_subset_for_channels` of `lhs op rhs` be answered by ONE operand's restriction ("TODO: optimization
+   possible" in ArithmeticWaveform.unsafe_get_subset_for_channels)?  lhs-exclusive request: always *)
+Theorem C08_arith_subset_lhs_shortcut : forall l o r cs w', okb l = true -> canonb l = true -> cs <> [] ->
+  disjointb cs (channels r) = true -> get_subset l cs = OK w' ->
+  (forall c, inb c (channels w') = inb c cs) /\
+  forall c t, inb c cs = true -> 0 <= t -> t < duration l -> tg l c t = true ->
+    oQeq (sample w' c t) (sample (WArith l o r) c t).
+Proof. exact arith_subset_lhs_shortcut. Qed.
+Print Assumptions C08_arith_subset_lhs_shortcut.
+(* rhs-exclusive request: the operand's restriction under the unary form of the operator ... *)
+Theorem C08_arith_subset_rhs_exclusive : forall l o r cs w', okb r = true -> canonb r = true -> cs <> [] ->
+  disjointb cs (channels l) = true -> get_subset r cs = OK w' ->
+  forall c t, inb c cs = true -> 0 <= t -> t < duration r -> tg r c t = true ->
+    oQeq (omap (aop_rhs_only o) (sample w' c t)) (sample (WArith l o r) c t).
+Proof. exact arith_subset_rhs_exclusive. Qed.
+Print Assumptions C08_arith_subset_rhs_exclusive.
+(* ... so the short cut is sound for '+' ... *)
+Theorem C08_arith_subset_rhs_shortcut_add : forall l r cs w', okb r = true -> canonb r = true -> cs <> [] ->
+  disjointb cs (channels l) = true -> get_subset r cs = OK w' ->
+  forall c t, inb c cs = true -> 0 <= t -> t < duration r -> tg r c t = true ->
+    oQeq (sample w' c t) (sample (WArith l OpAdd r) c t).
+Proof. exact arith_subset_rhs_shortcut_add. Qed.
+Print Assumptions C08_arith_subset_rhs_shortcut_add.
+(* ... and refuted for '-' (all hypotheses of the '+' theorem hold; the operand's restriction answers 3 and reports the
+   constant 3, the restriction of `lhs - rhs` that the code returns answers and reports -3) *)
+Theorem C08_arith_subset_rhs_shortcut_sub_refuted :
+  exists l r cs w' w'' c t, okb r = true /\ canonb r = true /\ disjointb cs (channels l) = true /\ inb c cs = true /\
+    0 <= t /\ t < duration r /\ tg r c t = true /\
+    get_subset r cs = OK w' /\ get_subset (WArith l OpSub r) cs = OK w'' /\
+    sample w' c t = Some 3 /\ sample w'' c t = Some (- (3)) /\ cv w' c = Some 3 /\ cv w'' c = Some (- (3)).
+Proof. exact arith_subset_rhs_shortcut_sub_refuted. Qed.
+Print Assumptions C08_arith_subset_rhs_shortcut_sub_refuted.
+(* a channel added / overwritten by a ParallelChannelTransformation is its (possibly time dependent) value, whatever the
+   inner waveform is *)
+Theorem C08_parallel_added_channel : forall i cs c v t, lookup c cs = Some v ->
+  sample (WTrans i (TParallel cs)) c t = Some (tval_at v t).
+Proof. exact parallel_added_channel. Qed.
+Print Assumptions C08_parallel_added_channel.
